@@ -77,7 +77,7 @@ func (a1 jsonMultiset) diff(
 		default:
 			e = DiffElement{
 				Path:   path.clone(),
-				Remove: nodeList(a1),
+				Remove: nodeList(jsonArray(a1)),
 				Add:    nodeList(n),
 			}
 		}
@@ -89,7 +89,7 @@ func (a1 jsonMultiset) diff(
 				Merge: true,
 			},
 			Path: path.clone(),
-			Add:  nodeList(n),
+			Add:  nodeList(jsonArray(a2)),
 		}
 		return append(d, e)
 	}
